@@ -63,7 +63,7 @@ def warm():
 def run_c07(t, tier, res):
     enc = t.choice(trainer.ENCODINGS)
     flavour = {"encoding": enc, "nonascii": True, "hostile": True, "nonbmp": enc == "utf-8" and t.chance(1, 3),
-               "sites": t.chance(1, 4), "zoo": enc == "utf-8" and t.chance(1, 3)}
+               "sites": t.chance(1, 4), "zoo": enc == "utf-8" and t.chance(1, 3), "large": t.chance(1, 30 if tier == "quick" else 8)}
     pws, opts = trainer.gen_list(t, flavour)
     # splice hostile characters into words as well
     for i in range(len(pws)):
@@ -94,6 +94,8 @@ def run_c07(t, tier, res):
         raw = b"\n".join(lines) + b"\n"
         res.stats["hex_route_lists"] += 1
     tr = trainer.train(pws, opts, raw=raw)
+    if flavour.get("large"):
+        res.stats["large_lists_trained" if tr.ok else "large_lists_not_trained"] += 1
     res.sample = {"passwords": pws[:14], "n": len(pws), "opts": opts, "some_lines_as_hex": raw is not None}
     if not tr.ok:
         res.rejected = "trainer_failed"
